@@ -9,8 +9,8 @@ import (
 	"math/rand"
 	"os"
 	"runtime"
-	"strconv"
 	"sort"
+	"strconv"
 	"strings"
 	"sync"
 	"time"
